@@ -144,6 +144,9 @@ func (p *HTTPProxy) ServeHTTP(w http.ResponseWriter, r *http.Request) {
 		Scheme: t.URL.Scheme,
 		Host:   t.URL.Host,
 		Path:   r.URL.Path,
+		// the client's own encoding of the path. It is only a hint: when it
+		// stops being an encoding of Path the path is encoded from Path
+		RawPath: r.URL.RawPath,
 	}
 	if t.URL.RawQuery == "" || r.URL.RawQuery == "" {
 		targetURL.RawQuery = t.URL.RawQuery + r.URL.RawQuery
@@ -162,6 +165,15 @@ func (p *HTTPProxy) ServeHTTP(w http.ResponseWriter, r *http.Request) {
 		if !strings.HasPrefix(targetURL.Path, "/") {
 			targetURL.Path = "/" + targetURL.Path
 		}
+		// strip the client's encoding of the path in the same way
+		if strings.HasPrefix(targetURL.RawPath, t.StripPath) {
+			targetURL.RawPath = targetURL.RawPath[len(t.StripPath):]
+			if !strings.HasPrefix(targetURL.RawPath, "/") {
+				targetURL.RawPath = "/" + targetURL.RawPath
+			}
+		} else {
+			targetURL.RawPath = ""
+		}
 	}
 
 	if t.PrependPath != "" {
@@ -170,6 +182,12 @@ func (p *HTTPProxy) ServeHTTP(w http.ResponseWriter, r *http.Request) {
 		// section 5.3 of RFC7230 (https://tools.ietf.org/html/rfc7230#section-5.3)
 		if !strings.HasPrefix(targetURL.Path, "/") {
 			targetURL.Path = "/" + targetURL.Path
+		}
+		if targetURL.RawPath != "" {
+			targetURL.RawPath = t.PrependPath + targetURL.RawPath
+			if !strings.HasPrefix(targetURL.RawPath, "/") {
+				targetURL.RawPath = "/" + targetURL.RawPath
+			}
 		}
 	}
 
